@@ -1,7 +1,461 @@
-//! C07: not implemented yet.
-use crate::util::Args;
+//! C07: the interpreter-based simulator (patronus::sim::Interpreter) on generated systems x
+//! operation histories.  One case per line:
+//!   (case ID (sys ...) (ops OP ...))
+//!   OP = (init zero R) | (init random SEED (oracle V ...) (det ok|differs) R) | (set SYM bBITS R) | (step R)
+//!      | (get E R) | (count R) | (snapshot R) | (restore ID R)
+//!   R  = (ok) | (bv W bBITS) | (arr IW DW bBITS ...) | (num N) | (panic "file:line")
+//!   V  = bBITS | (arr IW DW bBITS ...)            -- what InitValueGenerator produced, in allocation order
+//! The history is cut after the first panic (the interpreter may be half-updated then).
+use crate::dump::*;
+use crate::exprgen::*;
+use crate::rng::Rng;
+use crate::sexp::{Sexp, build_expr, read_cases};
+use crate::sysgen::*;
+use crate::util::*;
+use baa::{ArrayOps, BitVecOps, BitVecValue, Value};
+use patronus::expr::*;
+use patronus::sim::*;
+use patronus::system::*;
+use std::io::Write;
 
-pub fn run(_args: &Args) {
-    eprintln!("C07: harness module not implemented yet");
-    std::process::exit(2);
+#[derive(Clone)]
+enum Op {
+    Init(InitKind),
+    Set(ExprRef, BitVecValue),
+    Step,
+    Get(ExprRef),
+    Count,
+    Snapshot,
+    Restore(u32),
+}
+
+struct Case {
+    ctx: Context,
+    sys: TransitionSystem,
+    ops: Vec<Op>,
+}
+
+pub fn run(args: &Args) {
+    let mut rng = Rng::new(args.seed);
+    let mut out = std::io::BufWriter::new(std::fs::File::create(&args.out).expect("out file"));
+    let mut stats = Stats::default();
+    let mut distinct = std::collections::HashSet::new();
+    if let Some(path) = args.get("cases-in") {
+        for c in read_cases(path).iter() {
+            let case = parse_case(c);
+            let id = c.list()[1].atom().to_string();
+            let (line, key) = run_case(&id, case, &mut stats);
+            distinct.insert(key);
+            stats.sample(&line, 3);
+            writeln!(out, "{line}").unwrap();
+        }
+    }
+    for id in 0..args.count {
+        let mut r = rng.fork();
+        let case = gen_case(&mut r, &mut stats, args);
+        let (line, key) = run_case(&format!("{id}"), case, &mut stats);
+        distinct.insert(key);
+        stats.sample(&line, 3);
+        writeln!(out, "{line}").unwrap();
+    }
+    stats.add("distinct_cases", distinct.len() as u64);
+    stats.write(&args.out);
+}
+
+const SMALL: &[WidthInt] = &[1, 1, 2, 3, 4, 8];
+const WIDE: &[WidthInt] = &[1, 2, 8, 16, 31, 32, 33, 63, 64, 65, 127, 128, 129];
+
+fn expr_cfg(widths: &[WidthInt], div_rem: bool) -> GenCfg {
+    GenCfg { max_depth: 3, arrays: true, div_rem, array_eq: false, widths: widths.to_vec(), max_index_width: 3, syms_per_type: 1, mul_max_width: 128 }
+}
+
+fn gen_with_pool(ctx: &mut Context, rng: &mut Rng, cfg: &GenCfg, pool: &[ExprRef], tpe: Type, depth: u32) -> ExprRef {
+    let mut g = ExprGen::new(ctx, rng, cfg.clone());
+    g.pool = Some(pool.to_vec());
+    match tpe {
+        Type::BV(w) => g.gen_bv(w, depth),
+        Type::Array(a) => g.gen_array(a.index_width, a.data_width, depth),
+    }
+}
+
+fn declared(sys: &TransitionSystem) -> Vec<ExprRef> {
+    sys.states.iter().map(|s| s.symbol).chain(sys.inputs.iter().copied()).collect()
+}
+
+fn gen_case(rng: &mut Rng, stats: &mut Stats, args: &Args) -> Case {
+    let mut ctx = Context::default();
+    let wide = rng.chance(2, 5);
+    let widths: Vec<WidthInt> = if let Some(w) = args.get("widths") { w.split(',').map(|x| x.parse().unwrap()).collect() } else if wide { WIDE.to_vec() } else { SMALL.to_vec() };
+    stats.bump("width_profile", if wide { "wide" } else { "small" });
+    let cfg = SysCfg {
+        max_bv_states: 4,
+        max_inputs: 3,
+        array_state_chance: (1, 3),
+        widths: widths.clone(),
+        max_depth: 1 + rng.below(3) as u32,
+        max_bads: 1,
+        max_constraints: 1,
+        max_outputs: 2,
+        arrays_in_exprs: true,
+        init_reads_earlier: true,
+        div_rem: false,
+    };
+    let mut sys = gen_sys(&mut ctx, rng, &cfg);
+    let gcfg = expr_cfg(&widths, false);
+
+    // a second array state whose next function stores into it / copies the first one
+    if rng.chance(1, 6) {
+        let iw = rng.range(1, 3) as WidthInt;
+        let dw = *rng.pick(&widths);
+        let sym = ctx.array_symbol("mem2", iw, dw);
+        let mut pool = declared(&sys);
+        pool.push(sym);
+        let tpe = sym.get_type(&ctx);
+        let init = if rng.chance(1, 2) { Some(gen_with_pool(&mut ctx, rng, &gcfg, &declared(&sys), tpe, 1)) } else { None };
+        let next = if rng.chance(4, 5) { Some(gen_with_pool(&mut ctx, rng, &gcfg, &pool, tpe, 2)) } else { None };
+        let pos = rng.below(sys.states.len() as u64 + 1) as usize;
+        sys.states.insert(pos, State { symbol: sym, init, next });
+        stats.inc("second_array_state");
+    }
+    // init expressions that read the state itself or a later state (sequential initialisation matters)
+    if rng.chance(1, 4) {
+        let k = rng.below(sys.states.len() as u64) as usize;
+        let tpe = sys.states[k].symbol.get_type(&ctx);
+        let pool = declared(&sys);
+        let e = gen_with_pool(&mut ctx, rng, &gcfg, &pool, tpe, 2);
+        sys.states[k].init = Some(e);
+        stats.inc("init_over_all_symbols");
+    }
+    // ill-formed systems (outside the property's domain; model and implementation must crash alike)
+    if rng.chance(1, 80) {
+        let s = sys.states[rng.below(sys.states.len() as u64) as usize].symbol;
+        sys.inputs.push(s);
+        stats.inc("illformed_duplicate_declaration");
+    }
+    if rng.chance(1, 80) {
+        let k = rng.below(sys.states.len() as u64) as usize;
+        if let Type::BV(w) = sys.states[k].symbol.get_type(&ctx) {
+            let u = ctx.bv_symbol("undeclared", w);
+            let old = sys.states[k].next.unwrap_or(sys.states[k].symbol);
+            let e = ctx.xor(old, u);
+            sys.states[k].next = Some(e);
+            stats.inc("illformed_undeclared_symbol_in_next");
+        }
+    }
+
+    // the history
+    let decl = declared(&sys);
+    let bv_decl: Vec<ExprRef> = decl.iter().copied().filter(|s| s.get_bv_type(&ctx).is_some()).collect();
+    let mut roots: Vec<ExprRef> = decl.clone();
+    roots.extend(sys.outputs.iter().map(|o| o.expr));
+    roots.extend(sys.bad_states.iter().copied());
+    roots.extend(sys.constraints.iter().copied());
+    for s in sys.states.iter() {
+        roots.extend(s.init);
+        roots.extend(s.next);
+    }
+    let len = rng.range(1, 60) as usize;
+    let mut ops: Vec<Op> = vec![];
+    let mut snapshots = 0u32;
+    let start_uninitialised = rng.chance(1, 25);
+    if !start_uninitialised {
+        ops.push(gen_init(rng));
+    } else {
+        stats.inc("history_starts_uninitialised");
+    }
+    let observe_all = rng.chance(1, 2);
+    let allow_illformed = rng.chance(1, 8);
+    while ops.len() < len {
+        let mut c = rng.below(100);
+        if c >= 98 && !allow_illformed {
+            c = 67;
+        }
+        let mutating = c < 62;
+        match c {
+            0..=27 => {
+                if bv_decl.is_empty() {
+                    ops.push(Op::Step);
+                } else {
+                    // inputs mostly, states sometimes
+                    let bv_inputs: Vec<ExprRef> = sys.inputs.iter().copied().filter(|s| s.get_bv_type(&ctx).is_some()).collect();
+                    let s = if !bv_inputs.is_empty() && rng.chance(3, 4) { *rng.pick(&bv_inputs) } else { *rng.pick(&bv_decl) };
+                    let w = s.get_bv_type(&ctx).unwrap();
+                    ops.push(Op::Set(s, lit_value(rng, w)));
+                }
+            }
+            28..=52 => ops.push(Op::Step),
+            53..=56 => {
+                ops.push(Op::Snapshot);
+                snapshots += 1;
+            }
+            57..=60 => {
+                if snapshots > 0 {
+                    ops.push(Op::Restore(rng.below(snapshots as u64) as u32));
+                } else {
+                    ops.push(Op::Step);
+                }
+            }
+            61 => ops.push(gen_init(rng)),
+            62..=66 => ops.push(Op::Count),
+            67..=84 => ops.push(Op::Get(*rng.pick(&roots))),
+            85..=97 => {
+                let w = *rng.pick(&widths);
+                let tpe = if rng.chance(1, 8) {
+                    Type::Array(ArrayType { index_width: rng.range(1, 3) as WidthInt, data_width: w })
+                } else {
+                    Type::BV(w)
+                };
+                let d = 1 + rng.below(3) as u32;
+                ops.push(Op::Get(gen_with_pool(&mut ctx, rng, &gcfg, &decl, tpe, d)));
+            }
+            _ => {
+                // outside the property's domain: the implementation must crash exactly where the model does
+                match rng.below(4) {
+                    0 => {
+                        let w = *rng.pick(&widths);
+                        let u = ctx.bv_symbol("nowhere", w);
+                        ops.push(Op::Set(u, lit_value(rng, w)));
+                        stats.inc("illformed_set_undeclared");
+                    }
+                    1 => {
+                        ops.push(Op::Restore(snapshots + rng.below(3) as u32));
+                        stats.inc("illformed_restore_bad_id");
+                    }
+                    2 => {
+                        let w = *rng.pick(&widths);
+                        let u = ctx.bv_symbol("nowhere", w);
+                        let e = if rng.chance(1, 2) { u } else { ctx.not(u) };
+                        ops.push(Op::Get(e));
+                        stats.inc("illformed_get_undeclared");
+                    }
+                    _ => {
+                        let w = *rng.pick(&widths);
+                        let e = gen_with_pool(&mut ctx, rng, &expr_cfg(&widths, true), &decl, Type::BV(w), 2);
+                        ops.push(Op::Get(e));
+                        stats.inc("get_with_divrem_enabled");
+                    }
+                }
+            }
+        }
+        if mutating && observe_all {
+            for s in decl.iter() {
+                ops.push(Op::Get(*s));
+            }
+        }
+    }
+    Case { ctx, sys, ops }
+}
+
+fn gen_init(rng: &mut Rng) -> Op {
+    if rng.chance(1, 2) { Op::Init(InitKind::Zero) } else { Op::Init(InitKind::Random(rng.below(1 << 20))) }
+}
+
+fn parse_case(c: &Sexp) -> Case {
+    let mut ctx = Context::default();
+    let sys_x = c.list().iter().find(|x| matches!(x, Sexp::List(l) if !l.is_empty() && l[0] == Sexp::Atom("sys".into()))).expect("sys");
+    let sys = build_sys(&mut ctx, sys_x);
+    let mut ops = vec![];
+    for o in c.field("ops").unwrap_or(&[]) {
+        let l = o.list();
+        match l[0].atom() {
+            "init" => {
+                if l[1].atom() == "zero" {
+                    ops.push(Op::Init(InitKind::Zero));
+                } else {
+                    ops.push(Op::Init(InitKind::Random(l[2].num())));
+                }
+            }
+            "set" => {
+                let s = build_expr(&mut ctx, &l[1]);
+                ops.push(Op::Set(s, l[2].bits()));
+            }
+            "step" => ops.push(Op::Step),
+            "get" => {
+                let e = build_expr(&mut ctx, &l[1]);
+                ops.push(Op::Get(e));
+            }
+            "count" => ops.push(Op::Count),
+            "snapshot" => ops.push(Op::Snapshot),
+            "restore" => ops.push(Op::Restore(l[1].num() as u32)),
+            other => panic!("unknown op {other}"),
+        }
+    }
+    Case { ctx, sys, ops }
+}
+
+fn all_indices(iw: WidthInt) -> Vec<BitVecValue> {
+    assert!(iw <= 10, "index width too large to enumerate");
+    (0..(1u64 << iw)).map(|i| BitVecValue::from_u64(i, iw)).collect()
+}
+
+fn dump_value(v: &Value) -> String {
+    match v {
+        Value::BitVec(b) => format!("(bv {} {})", b.width(), bv_tok(b)),
+        Value::Array(a) => dump_array_at(a, &all_indices(a.index_width())),
+    }
+}
+
+fn dump_oracle_value(v: &Value) -> String {
+    match v {
+        Value::BitVec(b) => bv_tok(b),
+        Value::Array(a) => dump_array_at(a, &all_indices(a.index_width())),
+    }
+}
+
+fn panic_result() -> String {
+    format!("(panic {})", quote(&last_panic_loc()))
+}
+
+fn run_case(id: &str, case: Case, stats: &mut Stats) -> (String, String) {
+    let Case { ctx, sys, ops } = case;
+    // shape statistics
+    stats.bump("states", &format!("{}", sys.states.len()));
+    stats.bump("inputs", &format!("{}", sys.inputs.len()));
+    let n_arr = sys.states.iter().filter(|s| matches!(s.symbol.get_type(&ctx), Type::Array(_))).count();
+    stats.bump("array_states", &format!("{n_arr}"));
+    for s in sys.states.iter() {
+        stats.bump("state_shape", &format!("init={} next={}", s.init.is_some(), if s.next == Some(s.symbol) { "self".to_string() } else { s.next.is_some().to_string() }));
+        match s.symbol.get_type(&ctx) {
+            Type::BV(w) => stats.bump("symbol_width", &format!("{w}")),
+            Type::Array(a) => stats.bump("symbol_width", &format!("arr{}x{}", a.index_width, a.data_width)),
+        }
+    }
+    for s in sys.inputs.iter() {
+        if let Type::BV(w) = s.get_type(&ctx) {
+            stats.bump("symbol_width", &format!("{w}"));
+        }
+    }
+    stats.bump("history_len", &format!("{}", (ops.len() / 10) * 10));
+
+    let sys_txt = dump_sys(&ctx, &sys);
+    let decl = declared(&sys);
+    let mut sim = Interpreter::new(&ctx, &sys);
+    let mut txt = String::new();
+    let mut key = sys_txt.clone();
+    let mut executed = 0usize;
+    for op in ops.iter() {
+        executed += 1;
+        let mut crashed = false;
+        match op {
+            Op::Init(kind) => {
+                stats.bump("ops", "init");
+                let r = guarded(|| sim.init(*kind));
+                let res = match &r {
+                    Ok(()) => "(ok)".to_string(),
+                    Err(_) => {
+                        crashed = true;
+                        panic_result()
+                    }
+                };
+                match kind {
+                    InitKind::Zero => {
+                        stats.bump("init_kind", "zero");
+                        txt.push_str(&format!(" (init zero {res})"));
+                        key.push_str(" iz");
+                    }
+                    InitKind::Random(seed) => {
+                        stats.bump("init_kind", "random");
+                        // the values the generator produces, in the allocation order of interpreter.rs:112-117
+                        let oracle = guarded(|| {
+                            let mut g = InitValueGenerator::from_kind(*kind);
+                            decl.iter().map(|s| dump_oracle_value(&g.generate(s.get_type(&ctx)))).collect::<Vec<_>>()
+                        })
+                        .unwrap_or_default();
+                        // determinism: a second simulator with the same seed holds the same values
+                        let det = if r.is_ok() {
+                            let same = guarded(|| {
+                                let mut other = Interpreter::new(&ctx, &sys);
+                                other.init(*kind);
+                                decl.iter().all(|s| dump_value(&other.get(*s)) == dump_value(&sim.get(*s)))
+                            });
+                            if same == Ok(true) { "ok" } else { "differs" }
+                        } else {
+                            "ok"
+                        };
+                        if det != "ok" {
+                            stats.inc("random_init_not_deterministic");
+                        }
+                        txt.push_str(&format!(" (init random {seed} (oracle {}) (det {det}) {res})", oracle.join(" ")));
+                        key.push_str(&format!(" ir{seed}"));
+                    }
+                }
+            }
+            Op::Set(s, v) => {
+                stats.bump("ops", "set");
+                let r = guarded(|| sim.set(*s, v));
+                let res = if r.is_ok() {
+                    "(ok)".to_string()
+                } else {
+                    crashed = true;
+                    panic_result()
+                };
+                let t = format!(" (set {} {}", dump_expr(&ctx, *s), bv_tok(v));
+                key.push_str(&t);
+                txt.push_str(&format!("{t} {res})"));
+            }
+            Op::Step => {
+                stats.bump("ops", "step");
+                let r = guarded(|| sim.step());
+                let res = if r.is_ok() {
+                    "(ok)".to_string()
+                } else {
+                    crashed = true;
+                    panic_result()
+                };
+                key.push_str(" s");
+                txt.push_str(&format!(" (step {res})"));
+            }
+            Op::Get(e) => {
+                stats.bump("ops", "get");
+                let r = guarded(|| sim.get(*e));
+                let res = match &r {
+                    Ok(v) => dump_value(v),
+                    Err(_) => {
+                        crashed = true;
+                        panic_result()
+                    }
+                };
+                let t = format!(" (get {}", dump_expr(&ctx, *e));
+                key.push_str(&t);
+                txt.push_str(&format!("{t} {res})"));
+            }
+            Op::Count => {
+                stats.bump("ops", "count");
+                txt.push_str(&format!(" (count (num {}))", sim.step_count()));
+                key.push_str(" c");
+            }
+            Op::Snapshot => {
+                stats.bump("ops", "snapshot");
+                let r = guarded(|| sim.take_snapshot());
+                let res = match r {
+                    Ok(i) => format!("(num {i})"),
+                    Err(_) => {
+                        crashed = true;
+                        panic_result()
+                    }
+                };
+                key.push_str(" p");
+                txt.push_str(&format!(" (snapshot {res})"));
+            }
+            Op::Restore(i) => {
+                stats.bump("ops", "restore");
+                let r = guarded(|| sim.restore_snapshot(*i));
+                let res = if r.is_ok() {
+                    "(ok)".to_string()
+                } else {
+                    crashed = true;
+                    panic_result()
+                };
+                key.push_str(&format!(" r{i}"));
+                txt.push_str(&format!(" (restore {i} {res})"));
+            }
+        }
+        if crashed {
+            stats.inc("histories_ending_in_panic");
+            stats.bump("panic_at", &last_panic_loc());
+            break;
+        }
+    }
+    stats.add("ops_executed", executed as u64);
+    (format!("(case {id} {sys_txt} (ops{txt}))"), key)
 }
